@@ -52,6 +52,13 @@ def make(kind, env, seed=0, **kw):
             if n_.endswith("w_gate"):
                 with torch.no_grad():
                     prm.copy_(torch.randn(prm.shape, generator=g) * 0.7)
+    elif kind == "am_simple_sdpa":
+        # documented option: the library's own exact attention function instead of torch's fused kernel, in encoder and decoder
+        from rl4co.models import AttentionModelPolicy
+        from rl4co.models.nn.attention import scaled_dot_product_attention_simple
+
+        p = AttentionModelPolicy(env_name=name, embed_dim=32, num_encoder_layers=2, num_heads=2, normalization="instance",
+                                 sdpa_fn_encoder=scaled_dot_product_attention_simple, sdpa_fn_decoder="simple", **kw)
     elif kind == "am_layernorm":
         from rl4co.models import AttentionModelPolicy
 
